@@ -675,7 +675,7 @@ pub fn parse_sort(
 
 /// Parse an optional escape_char for Like, ILike, SimilarTo
 fn parse_escape_char(s: &str) -> Result<Option<char>> {
-    match s.len() {
+    match s.chars().count() {
         0 => Ok(None),
         1 => Ok(s.chars().next()),
         _ => internal_err!("Invalid length for escape char"),
